@@ -256,6 +256,12 @@ func verifC09RelayBody() {
 	if verifChoice(2) == 1 {
 		cancel()
 	}
+	// the relay candidate's network type (IPv4 here) need not be among the
+	// configured ones: the TURN server is reached over whatever works
+	if verifChoice(2) == 1 {
+		a.networkTypes = []NetworkType{NetworkTypeUDP6}
+		verifReach("relay-outside-configured-network-types")
+	}
 	url, err := stun.ParseURI("turn:turn.example.org:3478?transport=udp")
 	verifAssert(err == nil, "uri")
 	url.Username, url.Password = "u", "p"
